@@ -310,8 +310,37 @@ func c11Run(c *fw.Ctx, b fw.Batch) {
 				c11JudgePlain(c, fmt.Sprintf("text-%d-suffix", ti), x[s:])
 			}
 		}
+		// ASCII texts with every escape sequence ESC + two printable characters (ISO 2022 style
+		// designations are still "ASCII text characters only": utf-8)
+		for a := byte(0x20); a < 0x7F; a++ {
+			for bch := byte(0x20); bch < 0x7F; bch += 1 {
+				if (int(a)+int(bch))%7 != 0 && !(a == '$' || a == '(' || a == ')' || a == '%' || a == '-' || a == '.') {
+					continue
+				}
+				x := []byte("plain words \x1b" + string([]byte{a, bch}) + " more plain words \x1b(B end\n")
+				c11JudgeDetect(c, "esc-seq", x, 0)
+				c11JudgePlain(c, "esc-seq", x)
+			}
+		}
 		// long texts whose first offending byte comes late (beyond 1 KiB, around the default limit)
 		bases := [][]byte{bytes.Repeat([]byte("plain ascii words "), 4500), bytes.Repeat([]byte("d\xc3\xa9j\xc3\xa0 vu \xe2\x82\xac "), 4500)}
+		// and beyond 1 MiB / 3 MiB (limit 0 and 4 MiB)
+		for _, base := range [][]byte{bytes.Repeat([]byte("plain ascii words "), 200000), bytes.Repeat([]byte("d\xc3\xa9j\xc3\xa0 vu \xe2\x82\xac "), 200000)} {
+			for _, off := range []int{1<<20 - 1, 1 << 20, 1<<20 + 5, 5<<19 + 1} {
+				if off >= len(base) {
+					continue
+				}
+				for off > 0 && base[off]&0xC0 == 0x80 {
+					off-- // not inside a multi-byte character
+				}
+				for _, lt := range [][]byte{{0xE9}, {0x85}, {0xFF}} {
+					x := append(append(append([]byte{}, base[:off]...), lt...), " tail text"...)
+					for _, L := range []uint32{0, 1 << 22, uint32(len(x))} {
+						c11JudgeDetect(c, "very-late-byte", x, L)
+					}
+				}
+			}
+		}
 		lates := [][]byte{{0xE9}, {0x85}, {0xFF}, {0xC3}, {0xC3, 0x28}, {0xE2, 0x82}, {0xA9, 0xA9}, {0x93, 'q', 0x94}, {0xE9, ' ', 0x85}}
 		for _, base := range bases {
 			for _, off := range []int{100, 1000, 1023, 1024, 1025, 1030, 2000, 3000, 3069, 3070, 3071, 3072, 4000, 6000, 16384, 65520, 65536, 65538, 70000} {
